@@ -461,7 +461,7 @@ func validateNatively(r *HarnessResult, n *Native, tier, replayDir string, probl
 				if n.RaceBin != "" {
 					rv := vecForNative(r.H, v.Vector, tier)
 					rv["Vec"].(map[string]string)["vp!seq"] = "0"
-					raw := n.RunRace(rv, 8)
+					raw := n.RunRace(rv, 20)
 					if strings.Contains(raw, "VP-ASSERT-FAIL "+v.Label) || strings.Contains(raw, "DATA RACE") {
 						v.Reproduced = true
 						v.NativeOut = firstLines(raceExcerpt(raw), 14)
@@ -486,7 +486,7 @@ func validateNatively(r *HarnessResult, n *Native, tier, replayDir string, probl
 			} else {
 				rv := vecForNative(r.H, v.Vector, tier)
 				rv["Vec"].(map[string]string)["vp!seq"] = "0"
-				raw := n.RunRace(rv, 5)
+				raw := n.RunRace(rv, 20)
 				v.Reproduced = strings.Contains(raw, "DATA RACE") || strings.Contains(raw, "concurrent map")
 				v.NativeOut = firstLines(raceExcerpt(raw), 14)
 			}
@@ -651,7 +651,7 @@ func replayFile(prop, path string, hs []*Harness) int {
 		}
 		rv := vecForNative(h, rp.Vector, rp.Tier)
 		rv["Vec"].(map[string]string)["vp!seq"] = "0"
-		raw := n.RunRace(rv, 5)
+		raw := n.RunRace(rv, 20)
 		fmt.Println(firstLines(raceExcerpt(raw), 20))
 		rep = strings.Contains(raw, "DATA RACE") || strings.Contains(raw, "concurrent map")
 	}
